@@ -248,8 +248,8 @@ Proof.
   destruct (leafR0_ok a b p1 p2) as [es E]. rewrite E in H. subst es. eapply plain_atomR; eassumption.
 Qed.
 
-Lemma diffF_atom_refl : forall a q1 q2, leaf_ok F a = true -> diffF udiff ops c F (VAtom a) (VAtom a) q1 q2 = Ok ([], []).
-Proof. intros a q1 q2 Hok. cbn [diffF]. rewrite leafR_refl by exact Hok. reflexivity. Qed.
+Lemma diffF_atom_refl : forall a q1 q2, diffF udiff ops c F (VAtom a) (VAtom a) q1 q2 = Ok ([], []).
+Proof. intros a q1 q2. cbn [diffF]. rewrite leafR_refl. reflexivity. Qed.
 
 Lemma leaf_mono : forall x y p1 p2, ain x -> ain y -> diff_leafF udiff F0 x y p1 p2 = [] -> leaf_eq udiff F x y.
 Proof.
@@ -430,7 +430,7 @@ Proof.
     destruct t2 as [b|ys|ys|kvs2|ys|ys].
     - cbn [diffF] in H. destruct (leafR udiff F0 a b p1 p2) as [es|e] eqn:E; cbn [bind] in H; [|discriminate].
       injection H as H0 H1. subst es. cbn [atoms_in] in Hu1, Hu2. apply plain_atomR in E; auto. subst.
-      apply diffF_atom_refl. exact Hg1.
+      apply diffF_atom_refl.
     - exfalso. cbn [diffF] in H. cbn [excluded no_opts o_excl existsb orb o_enum andb negb type_of] in H.
       rewrite (proj1 (atom_ty_not_container a TList I)) in H. cbn [negb andb] in H. injection H as H0 H1. eapply reportF0_cons; exact H0.
     - exfalso. cbn [diffF] in H. cbn [excluded no_opts o_excl existsb orb o_enum andb negb type_of] in H.
